@@ -309,7 +309,7 @@ func TestC12(t *testing.T) {
 			return
 		}
 		exhaustiveC12(ev)
-		kC12.Run(t, ev, perShard(pick(20000, 2000000)))
+		kC12.Run(t, ev, perShard(pick(20000, 6000000)))
 		ev.requireClasses("C12:accepted-with-matches", "C12:rejected:count 0", "C12:rejected:count too large",
 			"C12:rejected:more hashes than transactions", "C12:rejected:fewer flag bits than hashes", "C12:rejected:ran out of flag bits",
 			"C12:rejected:ran out of hashes", "C12:rejected:unused hash", "C12:rejected:unused flag byte", "C12:rejected:equal children",
